@@ -1,9 +1,10 @@
 from __future__ import annotations
 
+import asyncio
 import time
 from datetime import datetime, timedelta
 from functools import partial
-from typing import TYPE_CHECKING, Any, Awaitable, Callable, NoReturn
+from typing import TYPE_CHECKING, Any, Awaitable, Callable, Coroutine, NoReturn
 
 from repid._asyncify import asyncify
 from repid._utils import _NoAction
@@ -68,6 +69,17 @@ class MessageDependency(Message):
 
     async def resolve(self) -> MessageDependency:
         return self
+
+    async def _dispose(self, broker_call: Coroutine) -> None:
+        # an eager response disposes of the message: from now on the worker must not give it back
+        # when it cancels the actor, and the call runs to its end whatever happens to the actor
+        self._connection._disposing.add(self.key.id_)
+        call = asyncio.ensure_future(broker_call)
+        try:
+            await asyncio.shield(call)
+        except asyncio.CancelledError:
+            await asyncio.wait({call})
+            raise
 
     def add_callback(self, fn: Callable[[], Any | Awaitable[Any]]) -> None:
         self._callbacks.append(asyncify(fn))
